@@ -73,15 +73,15 @@ fn inline_text(input: &str) -> bool {
 }
 
 fn through_bundle(input: &str, func: fn(&str) -> Cow<'_, str>) -> Vec<String> {
-    let na = || vec!["na".to_string(); 4];
+    let na = || vec!["na".to_string(); 5];
     if !inline_text(input) {
         return na();
     }
     // m: one text element; n: two around a literal; s: text before, inside and after a select whose selector is a
     // MISSING argument (resolves to an error value, default variant taken); r: text reached through a term reference,
-    // directly, and through a message reference
+    // directly, and through a message reference; l: a text-only MULTI-LINE pattern (one text element per line)
     let src = format!(
-        "m = {i}\nn = {i}{{ \"|\" }}{i}\ns = {i}{{ $missing ->\n    [a] x\n   *[b] {i}\n}}{i}\n-t = {i}\nr = {{ -t }}{i}{{ m }}\n",
+        "m = {i}\nn = {i}{{ \"|\" }}{i}\ns = {i}{{ $missing ->\n    [a] x\n   *[b] {i}\n}}{i}\n-t = {i}\nr = {{ -t }}{i}{{ m }}\nl =\n    {i}\n    {i}\n",
         i = input
     );
     let res = match FluentResource::try_new(src) {
@@ -95,7 +95,7 @@ fn through_bundle(input: &str, func: fn(&str) -> Cow<'_, str>) -> Vec<String> {
         return na();
     }
     let mut out = vec![];
-    for id in ["m", "n", "s", "r"] {
+    for id in ["m", "n", "s", "r", "l"] {
         let o = match bundle.get_message(id).and_then(|m| m.value()) {
             Some(p) => {
                 let mut errs = vec![];
@@ -141,7 +141,7 @@ fn run(payload: &str) -> String {
         fluent_pseudo::transform(&input, fl[0], fl[1])
     };
     let o = through_bundle(&input, func);
-    format!("ok:{};m:{};n:{};s:{};r:{}", hex_enc(direct.as_bytes()), o[0], o[1], o[2], o[3])
+    format!("ok:{};m:{};n:{};s:{};r:{};l:{}", hex_enc(direct.as_bytes()), o[0], o[1], o[2], o[3], o[4])
 }
 
 fn main() {
